@@ -224,3 +224,12 @@ func main() {
 		os.Exit(3)
 	}
 }
+
+func digest(lines []string) string {
+	h := sha256.New()
+	for _, l := range lines {
+		h.Write([]byte(l))
+		h.Write([]byte{10})
+	}
+	return hex.EncodeToString(h.Sum(nil)[:12])
+}
